@@ -14,7 +14,7 @@ REPLAY_BOUNDS = {
     'dnnf': 'top-down compilation + conditioning with BOTH node stores (StandardDecisionNNFBuilder, SemanticDecisionNNFBuilder<U64_LARGEST>): 11 CNFs over 3 variables (incl. unsatisfiable by propagation / by search, an empty clause, tautological and repeated literals) x 6 orders x {diagram, negation} x 3 labels x 2 values, plus ~300 seeded random CNFs over 4 variables and ~200 over 5-6 variables with 3-9 clauses; checks: models = CNF models, false constant <=> unsatisfiable, no path decides a variable twice, condition = restriction',
     'cnf': 'Cnf::eval / is_sat_partial on 7 clause lists (incl. empty list, empty clause, duplicate and complementary literals) x all total and one-hole partial assignments of 3 variables; 300 seeded random PartialModel set/unset sequences; Cnf::condition on the 7 lists x 6 literals and 300 seeded random CNFs over 4 variables (all assignments); Cnf::wmc in FiniteField<1000000007> on the 7 lists x 2 weight vectors and 300 random CNFs/weights against the explicit sum; VarSet union / union_with / minus / intersect_varset / difference / iter / len / is_empty against BTreeSet on 300 random pairs of sets over 0..9; PartialModel from_assignments / from_litvec / from_total_model / assignment_iter / difference on 300 random pairs of partial assignments of 5 variables',
     'order': 'VarOrder::new on every permutation of 0..4 variables, each extended 0-2 times with new_last; linear_order / force_order / min_fill_order on 202 CNFs over 1-6 variables: bijection between labels and levels',
-    'compile': 'compile_cnf / collapse_clauses on 8 fixed clause lists x 6 orders and 600 seeded random CNFs; compile_logical_expr / compile_plan on 600 seeded random expressions of depth <= 4 over 3 variables; compile_cnf_with_assignments against compile-then-condition_model (same pointer) on 8 lists x 6 orders x 5 partial assignments and 600 random; BottomUpPlan::from_dtree(DTree::from_cnf) + compile_plan on 600 random CNFs; CompressionSddBuilder compile_cnf / compile_logical_expr / compile_plan under all 12 vtrees over 3 variables (8 fixed lists + 400 random CNFs and expressions) and 4 vtrees over 4 variables (100 random CNFs), evaluated by a structural walk of the SDD; SemanticSddBuilder<U64_LARGEST> compile_cnf on the same CNFs (its ite is an explicit todo!(), so no expressions / plans)',
+    'compile': 'compile_cnf / collapse_clauses on 8 fixed clause lists x 6 orders and 600 seeded random CNFs; compile_logical_expr / compile_plan on 600 seeded random expressions of depth <= 4 over 3 variables; compile_cnf_with_assignments against compile-then-condition_model (same pointer) on 8 lists x 6 orders x 5 partial assignments and 600 random; BottomUpPlan::from_dtree(DTree::from_cnf) + compile_plan on 600 random CNFs; CompressionSddBuilder compile_cnf / compile_logical_expr / compile_plan under all 12 vtrees over 3 variables (8 fixed lists + 400 random CNFs and expressions) and 4 vtrees over 4 variables (100 random CNFs) and 5 vtrees over 5 variables (200 random CNFs and expressions), evaluated by a structural walk of the SDD; SemanticSddBuilder<U64_LARGEST> compile_cnf on the same CNFs (its ite is an explicit todo!(), so no expressions / plans)',
     'dtree': 'DTree::from_cnf + VTree::from_dtree on 10 fixed CNFs with independent components / unused labels and 700 seeded random CNFs over 2-6 variables (half connected through one clause over all variables, half arbitrary) with random elimination orders over 0..largest label: leaves = clauses, vars = union of children, cutset formula, vtree leaves = CNF variables',
     'sdd': 'CompressionSddBuilder: 1200 seeded random straight-line programs of 9-18 operations (var, negate, and, or, iff, xor, ite, condition, exists, and verbatim repetitions of earlier operations so that the apply and ite caches hit) over 8 vtrees with 3-4 variables; every result evaluated by a structural walk against the truth table of the definition; earlier results re-checked after every operation',
     'hasher': 'CnfHasher new / push / decide / pop / hash: 2 fixed and 600 seeded random histories of 4-15 operations on CNFs with 2-4 variables and 1-5 clauses of <= 3 literals (prime product < 2^128), partial model kept in step with the decisions; every pair of visited states that falsify no clause: equal hash <=> the unsatisfied non-unit clauses restricted to unassigned literals coincide clause by clause',
